@@ -1,5 +1,6 @@
 """C05 — parallel tempering keeps every replica at its own thermal distribution (partial by nature:
 invariance is proved, ergodicity is not a theorem)."""
+from checks import pure_fns
 LEAN_TARGETS = ["QmcProps.C05", "drv_c05"]
 BINS = ["c05"]
 
@@ -25,16 +26,19 @@ RULE = ("histories: ladders of 2..8 real replicas (Ising: beta / J / Gamma / h /
         "tempering_step() at the C17 cadence with the same container words (final ladder, returned samples and energies, "
         "total_swaps, container-RNG consumption must agree); every tempering step of the manual history is a C10 case "
         "(after-state, decision log, counters; every second one with all swap probabilities and the order draw bisected) "
-        "and a rayon-step case. Non-trivial = history with at least one tempering step / step with a rejected or evaluated "
+        "and a rayon-step case. grow: ladders grown between tempering steps (add_qmc_stepper / tempering_step / parallel_tempering_step interleaved, 0..8 replicas), every step a full C10 case. Non-trivial = history with at least one tempering step / step with a rejected or evaluated "
         "decision; distinct = distinct full case text.")
 
 
 def main(ck):
+    pure_fns.run(ck)   # source->Lean translation of pure functions, re-proved equal to the hand model
     if ck.lake_build(LEAN_TARGETS):
         ck.audit("QmcProps.C05", ["Qmc.C05." + t for t in THEOREMS])
     if ck.cargo_build(BINS):
         cases = ck.harness("c05", ["histories"])
         ck.correspond("histories", "drv_c05", cases)
+        cases = ck.harness("c05", ["grow"])
+        ck.correspond("grow", "drv_c05", cases)
         ck.extra_trusted.append("Spy delegation wrapper in harness/src/bin/c10.rs (each tempering-step case is re-run on an unwrapped container and must end in the same state)")
         ck.extra_trusted.append("rayon scheduling / Rust aliasing rules for par_iter_mut (serial = parallel is observed on the same words, not proved)")
         ck.assumptions.append("each replica's own time-step kernel leaves its own SSE weight W_i invariant (C01-C04, C08, C09); strings legal (C07); beta > 0")
